@@ -8,7 +8,7 @@ from fractions import Fraction
 import vlib
 
 # not yet in coq/_CoqProject: the .vo files are used as compiled (see the final report)
-PROOF_MODULES = []
+PROOF_MODULES = ["C38/FdiffProofs.vo"]
 OBLIGATIONS = [
     "C38/P_fornberg_exact.v",
     "C38/P_fornberg_invariant.v",
